@@ -33,6 +33,36 @@ Fixpoint contains_double_slash (t : list N) : bool :=
   | _ => false
   end.
 
+(* "." or "%2e" / "%2E" at the start: the rest *)
+Definition dot_prefix (t : list N) : option (list N) :=
+  match t with
+  | c :: r =>
+      if c =? 46 then Some r
+      else if c =? 37 then
+        match r with
+        | a :: b :: r' => if (a =? 50) && ((b =? 101) || (b =? 69)) then Some r' else None
+        | _ => None
+        end
+      else None
+  | [] => None
+  end.
+(* two dots (each "." or "%2e") next to each other somewhere *)
+Fixpoint has_dotdot (t : list N) : bool :=
+  match t with
+  | [] => false
+  | _ :: r =>
+      (match dot_prefix t with
+       | Some r1 => match dot_prefix r1 with Some _ => true | None => false end
+       | None => false
+       end) || has_dotdot r
+  end.
+(* one dot somewhere *)
+Fixpoint has_dot (t : list N) : bool :=
+  match t with
+  | [] => false
+  | _ :: r => (match dot_prefix t with Some _ => true | None => false end) || has_dot r
+  end.
+
 Fixpoint take_until_colon (t : list N) : list N :=
   match t with
   | [] => []
@@ -41,6 +71,10 @@ Fixpoint take_until_colon (t : list N) : list N :=
 
 Definition starts_with_byte (b : N) (t : list N) : bool :=
   match t with c :: _ => c =? b | [] => false end.
+
+(* the host part of a host value is empty: nothing, or a terminator first *)
+Definition empty_host_part (t : list N) : bool :=
+  match t with [] => true | c :: _ => (c =? 47) || (c =? 63) || (c =? 35) end.
 
 Definition u_scheme_or_empty (u : url) : list N := match scheme u with Some s => s | None => [] end.
 Definition u_path_or_empty (u : url) : list N := match path u with Some p => p | None => [] end.
@@ -54,15 +88,17 @@ Definition u_password_only (u : url) : bool :=
   end.
 
 (* 0 = not known
+   1 = K1  pathname value with a drive-letter-shaped segment and two adjacent dots ("." or "%2e") (F-C07-12: such a segment is never popped by "..",
+           the mechanism of F-C01-9 reached through the setter)
    2 = K2  hostname value with ':' outside brackets (F-C07-1); host value led by ':' on a non-special URL (F-C07-6)
-   3 = K3  '/.' marker: host / hostname / pathname on a URL without host whose path starts with "//", or a
-           pathname value containing "//" on a URL without host (F-C07-2, F-C03-5)
+   3 = K3  '/.' marker: host / hostname / pathname on a URL without host whose path starts with "//", or, on a
+           URL without host, a pathname value that starts with "//" or contains "//" and a dot (F-C07-2, F-C03-5)
    4 = K4  host / hostname / pathname of a file URL (F-C07-3, F-C07-10)
    5 = K5  pathname value that is empty after the removal of tab / newline, on a non-special URL with an
            authority, when the raw value is not empty or the host is the empty host (F-C07-5)
-   6 = K6  protocol := file on a non-file URL (F-C07-7)
-   7 = K7  host on a non-special URL with a password and no username (F-C07-8)
-   8 = K8  port value made of tab / newline only (F-C07-9)
+   6 = K6  protocol := file on a special URL that is not a file URL (F-C07-7)
+   7 = K7  host value with an empty host part on a non-special URL with a password and no username (F-C07-8)
+   8 = K8  non-empty port value made of tab / newline only on a URL with a port (F-C07-9)
    9 = K9  pathname value led by tab / newline before a slash (F-C07-11)
    10 + k = href, class k of Known_C01 (F-C07-4 and the C01 findings) *)
 Definition known_c07 (u : url) (s : qsetter) (v : list N) : N :=
@@ -72,21 +108,25 @@ Definition known_c07 (u : url) (s : qsetter) (v : list N) : N :=
   let t := no_tnl v in
   match s with
   | QHref => let k := known_c01 None v in if k =? 0 then 0 else 10 + k
-  | QProtocol => if list_eqb (map to_lower (take_until_colon t)) s_file && negb file then 6 else 0
-  | QPort => if negb (match v with [] => true | _ => false end) && (match t with [] => true | _ => false end) then 8 else 0
+  | QProtocol => if list_eqb (map to_lower (take_until_colon t)) s_file && special && negb file then 6 else 0
+  | QPort => if negb (match v with [] => true | _ => false end) && (match t with [] => true | _ => false end)
+                && (match port u with Some _ => true | None => false end) then 8 else 0
   | QHost | QHostname | QPathname =>
       if u_cbb u then 0
       else if file then 4
       else if negb (has_host u)
               && (starts_with s_ss (u_path_or_empty u)
-                  || (match s with QPathname => contains_double_slash t | _ => false end)) then 3
+                  || (match s with
+                      | QPathname => starts_with s_ss t || (contains_double_slash t && has_dot t)
+                      | _ => false end)) then 3
       else match s with
            | QHostname => if host_colon t special then 2 else 0
            | QHost =>
                if negb special && starts_with_byte 58 t then 2
-               else if negb special && u_password_only u then 7
+               else if negb special && empty_host_part t && u_password_only u then 7
                else 0
            | _ =>
+               if has_drive_segment t && has_dotdot t then 1 else
                if negb special && u_has_authority u && (match t with [] => true | _ => false end)
                   && (negb (match v with [] => true | _ => false end) || negb (has_host u)) then 5
                else
